@@ -154,7 +154,8 @@ def decorate(behs, rng):
         b["_variant"] = {"wrap": rng.choice(["none", "none", "inline", "inline-untyped", "spread", "split"]),
                          "dup": rng.random() < 0.25, "style": rng.choice(["resolver", "resolver", "method"]),
                          "err": rng.choice(["fresh", "shared", "subclass", "proxy", "completion", "empty"]), "crash": rng.choice(["runtime", "runtime", "located", "index"]),
-                         "root": rng.choice(["separate", "separate", "shared"]), "dirs": rng.random() < 0.3}
+                         "root": rng.choice(["separate", "separate", "shared"]), "dirs": rng.random() < 0.3,
+                         "tn": rng.choice([None, None, 0, 1, 2]), "argdef": rng.random() < 0.4}
     return behs
 
 
